@@ -3,6 +3,7 @@ package checks
 import (
 	"fmt"
 	"go/ast"
+	"go/token"
 	"go/types"
 	"os"
 	"sort"
@@ -17,7 +18,7 @@ func init() {
 	register("C07", checkC07)
 	describe("C07", Meta{
 		Technique: "commutativity classification of every range-over-map loop reachable (CHA) from the artefact entry points, call-graph reachability of the clock and the PRNG, and the sorted-before-store rule for opcode lists",
-		Claim:     "Decides structural clauses of C07: no function reachable from an artefact-producing entry point (assembler, compiler, neural/quantum front-ends, HDL and JSON writers) (M) lets hash-map iteration order reach an artefact — every such loop's body consists only of commutative effects (distinct-key map writes, integer accumulation, set insertion, collect-then-sort, element-confined writes, diagnostics, failing returns) or is a listed, individually justified exception; (T) reaches time.Now or math/rand; (S) stores an opcode list that is not sorted by name. A necessary condition for byte-identical artefacts; other sources of nondeterminism (directory order, %p formatting) are not decided.",
+		Claim:     "Decides structural clauses of C07: no function reachable from an artefact-producing entry point (assembler, compiler, neural/quantum front-ends, HDL and JSON writers) (M) lets hash-map iteration order reach an artefact — every such loop's body consists only of commutative effects (distinct-key map writes, integer accumulation, set insertion, collect-then-sort, element-confined writes, diagnostics, failing returns) or is a listed, individually justified exception; (T) reaches time.Now or math/rand; (S) stores an opcode list that is not sorted by name; (G) collects the results of goroutines launched in a loop from a channel and appends/concatenates them in completion order. A necessary condition for byte-identical artefacts; other sources of nondeterminism (directory order, %p formatting) are not decided.",
 		Note:      "The loop-body classification is exact on the commutative forms and conservative otherwise; each residual loop was read and is either a known finding (with the artefact it perturbs) or a benign exception with its reason in the checker.",
 		DesignRef: "DESIGN.md §2 C07",
 	})
@@ -277,6 +278,7 @@ func checkC07(r *core.Run) {
 	}
 	r.Count("map_range_loops_in_scope", nLoops)
 	r.Count("map_range_loops_commutative", nIns)
+	c07Arrival(r, prog)
 }
 
 // moKey names a map loop without using local identifiers (a rename must not change the key): the
@@ -329,6 +331,126 @@ func shortType(t types.Type) string {
 		return n.Obj().Name()
 	}
 	return types.TypeString(t, func(p *types.Package) string { return "" })
+}
+
+// c07Arrival (C07/ARRIVAL, rule G): goroutine completion order reaching an artefact. In a function of
+// the artefact-producing packages, a local channel on which goroutines launched inside a loop send
+// (`for … { go func() { … ch <- x }() }`) delivers in scheduler order; a loop that receives from it
+// and appends / concatenates what it receives (without a later sort of that slice) builds its result
+// in that order.
+func c07Arrival(r *core.Run, prog *core.Program) {
+	n := 0
+	for _, pk := range prog.Pkgs {
+		info := pk.TypesInfo
+		core.FuncDecls(pk, func(_ *ast.File, fd *ast.FuncDecl) {
+			if !c07InScope(prog, pk.PkgPath, prog.Pos(fd.Pos())) {
+				return
+			}
+			// channels sent on by goroutines launched in a loop
+			multi := map[types.Object]token.Pos{}
+			var loops []ast.Node
+			ast.Inspect(fd.Body, func(m ast.Node) bool {
+				switch m.(type) {
+				case *ast.ForStmt, *ast.RangeStmt:
+					loops = append(loops, m)
+				}
+				return true
+			})
+			for _, l := range loops {
+				ast.Inspect(l, func(m ast.Node) bool {
+					g, ok := m.(*ast.GoStmt)
+					if !ok {
+						return true
+					}
+					var body ast.Node
+					if fl, ok := g.Call.Fun.(*ast.FuncLit); ok {
+						body = fl.Body
+					}
+					if body == nil {
+						// go f(…, ch, …): the channel argument of a launched function that sends on its parameter
+						for _, a := range g.Call.Args {
+							if id, ok := ast.Unparen(a).(*ast.Ident); ok {
+								if _, isChan := info.TypeOf(id).Underlying().(*types.Chan); isChan {
+									multi[info.ObjectOf(id)] = g.Pos()
+								}
+							}
+						}
+						return true
+					}
+					ast.Inspect(body, func(k ast.Node) bool {
+						if s, ok := k.(*ast.SendStmt); ok {
+							if id, ok := ast.Unparen(s.Chan).(*ast.Ident); ok {
+								if o := info.ObjectOf(id); o != nil {
+									if v, ok := o.(*types.Var); ok && !v.IsField() && v.Parent() != v.Pkg().Scope() {
+										multi[o] = g.Pos()
+									}
+								}
+							}
+						}
+						return true
+					})
+					return true
+				})
+			}
+			if len(multi) == 0 {
+				return
+			}
+			k := 0
+			for _, l := range loops {
+				var body *ast.BlockStmt
+				switch x := l.(type) {
+				case *ast.ForStmt:
+					body = x.Body
+				case *ast.RangeStmt:
+					body = x.Body
+				}
+				var ch types.Object
+				ast.Inspect(body, func(m ast.Node) bool {
+					if _, isGo := m.(*ast.GoStmt); isGo {
+						return false
+					}
+					if u, ok := m.(*ast.UnaryExpr); ok && u.Op == token.ARROW {
+						if id, ok := ast.Unparen(u.X).(*ast.Ident); ok {
+							if _, isMulti := multi[info.ObjectOf(id)]; isMulti && ch == nil {
+								ch = info.ObjectOf(id)
+							}
+						}
+					}
+					return true
+				})
+				if ch == nil {
+					continue
+				}
+				k++
+				n++
+				inst := fmt.Sprintf("C07/ARRIVAL:%s:loop%d", core.FuncKey(pk, fd), k)
+				what, wpos := "", token.NoPos
+				ast.Inspect(body, func(m ast.Node) bool {
+					as, ok := m.(*ast.AssignStmt)
+					if !ok || what != "" || len(as.Lhs) != 1 || len(as.Rhs) != 1 {
+						return true
+					}
+					if t := info.TypeOf(as.Lhs[0]); t != nil {
+						if b, ok := t.Underlying().(*types.Basic); ok && b.Info()&types.IsString != 0 && as.Tok == token.ADD_ASSIGN {
+							what, wpos = "string concatenation into "+types.ExprString(as.Lhs[0]), as.Pos()
+						}
+					}
+					if call, ok := as.Rhs[0].(*ast.CallExpr); ok {
+						if id, ok := call.Fun.(*ast.Ident); ok && id.Name == "append" {
+							what, wpos = "append to "+types.ExprString(as.Lhs[0]), as.Pos()
+						}
+					}
+					return true
+				})
+				if what == "" {
+					r.OK("C07/ARRIVAL", inst, prog.Pos(l.Pos()), "results of the goroutines are consumed without building an order-sensitive value (e.g. stored at the sender's index)")
+				} else {
+					r.Violation("C07/ARRIVAL", inst, prog.Pos(wpos), fmt.Sprintf("%s launches one goroutine per element and collects their results from channel %s in completion order (%s): positions in the result — and every artefact numbered by them — depend on goroutine scheduling, so two runs on the same input differ", core.FuncKey(pk, fd), ch.Name(), what))
+				}
+			}
+		})
+	}
+	r.Count("goroutine_result_collection_loops", n)
 }
 
 // benign exceptions, one loop each, with the reason it cannot perturb an artefact.
